@@ -217,6 +217,17 @@ def _fdiv(a, b):
         return math.copysign(math.inf, a) * math.copysign(1.0, b)
 
 
+def uf_eval(fn, args):
+    """the fixed interpretation of the uninterpreted functions used for numeric witness search and native replay
+    (shims/diff_shims.hpp defines the same formula): a smooth O(1) function of the arguments"""
+    _, fid, k = fn.split(":")
+    fid, k = int(fid), int(k)
+    acc = 0.3 + 0.37 * fid + 0.91 * k
+    for i, x in enumerate(args):
+        acc += (0.5 + 0.23 * ((i * 7 + k * 3 + fid) % 5)) * x
+    return _libm.sin(acc)
+
+
 def eval_ieee(roots, env):
     """Evaluate FP nodes in IEEE double / float (per node precision).  env: var name -> float."""
     val = {}
@@ -239,7 +250,9 @@ def eval_ieee(roots, env):
         elif op == "call":
             fn = n.args[0]
             args = [val[a.id] for a in n.args[1:]]
-            if n.prec == "f":
+            if fn.startswith("uf:"):
+                v = uf_eval(fn, args)
+            elif n.prec == "f":
                 v = getattr(_libm, fn if fn.endswith("f") else fn + "f")(*args)
             else:
                 v = getattr(_libm, fn)(*args)
